@@ -2,6 +2,7 @@ package j5schema
 
 import (
 	"fmt"
+	"slices"
 	"strings"
 
 	"github.com/pentops/j5/gen/j5/schema/v1/schema_j5pb"
@@ -198,13 +199,23 @@ func (s *ObjectSchema) ToJ5Object() *schema_j5pb.Object {
 }
 
 func (s *ObjectSchema) ClientProperties() []*ObjectProperty {
+	return s.clientProperties(nil)
+}
+
+// flattening lists the objects whose flattened fields are being expanded,
+// outermost first.
+func (s *ObjectSchema) clientProperties(flattening []*ObjectSchema) []*ObjectProperty {
+	flattening = append(flattening, s)
 	properties := make([]*ObjectProperty, 0, len(s.Properties))
 	for _, prop := range s.Properties {
 		switch propType := prop.Schema.(type) {
 		case *ObjectField:
-			if propType.Flatten {
+			// A flattened field whose object is already being flattened (a
+			// message flattening itself, directly or through other flattened
+			// fields) would expand forever: it stays a nested object.
+			if propType.Flatten && !slices.Contains(flattening, propType.Schema()) {
 
-				children := propType.Schema().ClientProperties()
+				children := propType.Schema().clientProperties(flattening)
 				for _, child := range children {
 					child := child.nestedClone(prop.ProtoField)
 					properties = append(properties, child)
